@@ -57,6 +57,12 @@ def cases(tier, seed):
                     if n >= 3 and bin(pat).count("1") >= 2 and n <= 5 and dim == 2:
                         # equal-magnitude alternating-sign values: the couplings of one atom to several others cancel exactly
                         yield {"N": n, "kind": kind, "dim": dim, "pattern": pat, "seed": seed, "values": "cancel"}
+    # histories: MPOs built and updated one after the other from the SAME tensor objects, which the caller changes in place in between
+    for n in (2, 3, 4):
+        for kind in ("rydberg", "xy"):
+            for depth in (1, 2) if tier == "quick" else (1, 2, 3):
+                for hist in itertools.product(HIST_OPS, repeat=depth):
+                    yield {"family": "history", "N": n, "kind": kind, "dim": 2, "hist": list(hist), "seed": seed}
     if N7[tier]:
         for pat in range(2**21):
             yield {"N": 7, "kind": "rydberg", "dim": 2, "pattern": pat, "seed": seed}
@@ -84,9 +90,83 @@ def _tables(seed, n):
     return _CACHE[key]
 
 
+HIST_OPS = ["mutU+make", "mutOmega+update", "mutDelta+update", "mutPhi+update", "updateOther"]
+
+
+def _history_case(case):
+    """Every live MPO must represent the values its inputs held when it was last built / updated, whatever happened to those tensors or to other MPOs since."""
+    from emu_base import HamiltonianType
+    from emu_mps.hamiltonian import make_H, update_H
+
+    n, kind, dim, seed = case["N"], case["kind"], case["dim"], case["seed"]
+    uvals, p1, p2, _ = _tables(seed, n)
+    U = torch.zeros(n, n, dtype=torch.float64)
+    for k, (i, j) in enumerate(itertools.combinations(range(n), 2)):
+        U[i, j] = U[j, i] = uvals[k]
+    htype = HamiltonianType.Rydberg if kind == "rydberg" else HamiltonianType.XY
+    cur = {"omega": torch.tensor(p1[0], dtype=torch.complex128), "delta": torch.tensor(p1[1], dtype=torch.complex128), "phi": torch.tensor(p1[2], dtype=torch.complex128)}
+    zero = torch.zeros(dim, dim, dtype=torch.complex128)
+    live = []  # [MPO, expected dense matrix]
+
+    def build():
+        with contextlib.redirect_stdout(io.StringIO()):
+            H = make_H(interaction_matrix=U, hamiltonian_type=htype, dim=dim, num_gpus_to_use=0)
+        return H, U.numpy().copy()
+
+    def upd(entry):
+        update_H(hamiltonian=entry[0], omega=cur["omega"], delta=cur["delta"], phi=cur["phi"], noise=zero.clone())
+        entry[2] = dense_hamiltonian(cur["omega"].real.tolist(), cur["delta"].real.tolist(), cur["phi"].real.tolist(), entry[1], kind=kind, dim=dim, noise=np.zeros((dim, dim)))
+
+    H, Ucopy = build()
+    live.append([H, Ucopy, None])
+    upd(live[0])
+    napp = 0
+    for step, op in enumerate([None] + case["hist"]):
+        if op == "mutU+make":
+            U[0, 1] += 1.3
+            U[1, 0] += 1.3
+            H, Ucopy = build()
+            live.append([H, Ucopy, None])
+            upd(live[-1])
+        elif op == "mutOmega+update":
+            cur["omega"][0] *= 0.5
+            upd(live[0])
+        elif op == "mutDelta+update":
+            cur["delta"][n - 1] += 2.2
+            upd(live[0])
+        elif op == "mutPhi+update":
+            cur["phi"][0] += 0.7
+            upd(live[0])
+        elif op == "updateOther":
+            # a second MPO of the same unchanged interaction matrix, driven differently: the first one must not notice
+            H, Ucopy = build()
+            e = [H, Ucopy, None]
+            saved = dict(cur)
+            cur.update(omega=torch.tensor(p2[0], dtype=torch.complex128), delta=torch.tensor(p2[1], dtype=torch.complex128), phi=torch.tensor(p2[2], dtype=torch.complex128))
+            upd(e)
+            cur.update(saved)
+            live.append(e)
+        for k, (H, _, ref) in enumerate(live):
+            napp += 1
+            got = mpo_to_mat(H.factors)
+            err = np.abs(got - ref).max() / max(1.0, np.abs(ref).max())
+            if not err < 1e-12:
+                return result(
+                    False,
+                    sig=f"history|{kind}|after={op}|mpo{min(k, 1)}",
+                    msg=f"after step {step} ({op}) of the history {case['hist']} MPO number {k} differs from the dense Hamiltonian of the inputs it was last given by {err:.2e}; N={n} kind={kind}",
+                    outcome="mismatch",
+                    transitions=napp,
+                )
+    return result(True, outcome=["history", kind, n, len(live)], transitions=napp, nontrivial=True)
+
+
 def run_case(case):
     from emu_base import HamiltonianType
     from emu_mps.hamiltonian import make_H, update_H
+
+    if case.get("family") == "history":
+        return _history_case(case)
 
     n, kind, dim, pat, seed = case["N"], case["kind"], case["dim"], case["pattern"], case["seed"]
     uvals, p1, p2, noise3 = _tables(seed, n)
